@@ -149,18 +149,20 @@ class C10(Prop):
                  "histories) + expressions regenerated from the clang AST with bridging lemmas + model/implementation correspondence")
     level_text = ("Lean 4 theorems about an executable model of lib/efuns/call_out.c (wheel arithmetic, delta-encoded "
                   "ordered insert, sweep, remove/find/time_left) for all delays, tick spacings and callback scripts; the "
-                  "model is tied to the source by ~30 expressions regenerated from the clang AST on every run (slot, rotation, "
-                  "handle, time_left, sweep order, insert comparison and delta updates, unlink update, head decrement, (int) "
-                  "casts, CHUNK_SIZE) each with a bridging lemma, and by running the real call_out code and the model on the "
+                  "model is tied to the source by ~35 expressions regenerated from the clang AST on every run (slot, rotation, "
+                  "handle, time_left, sweep order, insert comparison and delta updates, unlink update and its statement order, "
+                  "head decrement, owner tests of call_out()/get_all_call_outs/remove_all_call_out/by-name match, (int) casts, "
+                  "CHUNK_SIZE) each with a bridging lemma, and by running the real call_out code and the model on the "
                   "same generated histories; the Lean specification oracle (firing, answers, call_out_info, this_player, "
                   "print_call_out_usage bookkeeping) judges every implementation trace")
     level_note = ("trusted: Lean kernel; extract.py / props/c10_extract.py (clang AST -> NV/Gen/C10.lean); the correspondence "
                   "harness (differential, only the generated histories); callbacks are oracle scripts.  Top theorem "
                   "NV.C10.model_satisfies_spec, no hypotheses: the oracle (all clauses, incl. the print_call_out_usage / "
                   "num_call / free-list clause) accepts every history of the model, for all scripts and commands.  C int width: "
-                  "time left modelled ((int) cast regenerated), handles proved exact below 2^31/N call_outs "
-                  "(NV.C10.handleC_exact) with a Lean-checked witness above (NV.C10.C10_handles_Full_false, not replayed on the "
-                  "driver).  Observed only (checked by the LPC callback, no model): call_outs with 4 arguments incl. an object "
+                  "time left modelled ((int) cast regenerated); handles: the history with int handles (eventsC, what the model "
+                  "driver prints) is accepted under the decidable side condition handlesFit (NV.C10.model_satisfies_spec_int), "
+                  "the unconditional statement is refuted by a Lean-checked witness (NV.C10.C10_int_Full_false) that is replayed "
+                  "on the real driver through the verif hook verif_call_out_set_unique (open known finding C10-handle-overflow).  Observed only (checked by the LPC callback, no model): call_outs with 4 arguments incl. an object "
                   "that is destructed meanwhile; f_call_out refusing a destructed current_object")
     rule = ("cases = corpus + known-finding inputs + boundary list + seeded random histories of "
             "call_out (string and function pointer, with and without this_player)/remove/find (by name and handle)/"
@@ -169,16 +171,17 @@ class C10(Prop):
             "0..200 incl. backlog; the branch histogram of the run is in coverage.histogram; a case is "
             "non-trivial when its trace has >= 2 lines; distinct = distinct canonical implementation trace")
     not_covered = ["the O_LISTENER branch of call_out() (the flag is never set in this driver: dead code)",
-                   "int overflow of the handle after 2^26 call_outs (undefined behaviour): bound + Lean witness only, no replay "
-                   "on the driver (would need a hook that sets `unique`)",
+                   "int overflow of the handle after 2^26 call_outs: OPEN known finding C10-handle-overflow (not repaired); the "
+                   "link from `unique < 2^31/N - 1` to the side condition handlesFit is not proved (handleC_exact is per handle)",
+                   "call_out during shutdown, call_out by the master object (no separate path in call_out.c)",
                    "argument vectors: one string argument in the model; 4-argument call_outs (string, object, number) are "
                    "checked by the LPC callback only (observed, no theorem); refcounts of arguments are not observable",
                    "f_call_out by a destructed current_object: probed by the harness (destco), the model has the branch but the "
                    "probe is outside the model",
                    "the static `cop` cleanup at the entry of call_out() (unreachable: every error is caught inside the loop), "
                    "current_interactive = 0, eval_cost across the callbacks of one sweep, shutdown's remove_all_call_out",
-                   "hand-copied predicates: byName, remove_all_call_out's owner test, allocCall's free-list test "
-                   "(correspondence only)",
+                   "hand-copied: allocCall's free-list test (`!call_list_free` as wheelSize + busy = numCall), the scan order of "
+                   "the by-name loops (correspondence only)",
                    "see notes/C10-coverage.md for the full map"]
 
     def gen_extra(self, ctx, bdir):
